@@ -331,13 +331,17 @@ def apalache(module, cinit, init, inv, length, timeout=1800, tag=None):
     os.makedirs(out, exist_ok=True)
     cmd = ["timeout", str(timeout), "apalache-mc", "check", "--out-dir=" + out, "--cinit=" + cinit, "--init=" + init, "--inv=" + inv,
            "--length=%d" % length, module + ".tla"]
-    p = subprocess.run(cmd, cwd=SPEC, stdout=subprocess.PIPE, stderr=subprocess.STDOUT, text=True)
-    shutil.rmtree(out, ignore_errors=True)
-    if "EXITCODE: OK" in p.stdout:
-        return "ok"
-    if "EXITCODE: ERROR (12)" in p.stdout:
-        return "error"
-    log(p.stdout[-2000:])
+    for attempt in (1, 2):
+        p = subprocess.run(cmd, cwd=SPEC, stdout=subprocess.PIPE, stderr=subprocess.STDOUT, text=True)
+        shutil.rmtree(out, ignore_errors=True)
+        if "EXITCODE: OK" in p.stdout:
+            return "ok"
+        if "EXITCODE: ERROR (12)" in p.stdout:
+            return "error"
+        # no verdict at all (the parser's scratch directory under /tmp swept away by something else, say): once more
+        log(p.stdout[-2000:])
+        if attempt == 1:
+            os.makedirs(out, exist_ok=True)
     raise ToolError("apalache-mc gave no verdict for %s (%s/%s)" % (module, init, inv))
 
 
